@@ -171,6 +171,27 @@ Proof.
   assert (amem k tk = false) as -> by (now apply amem_false_iff2). reflexivity.
 Qed.
 
+Theorem s3_map_level o tm lm :
+  exists rm, s3 o (TM tm) (Some (TM lm)) = TM rm /\
+    forall k, aget k rm =
+      match aget k tm with
+      | Some tv => Some (s3 (aget k (kidsM o)) tv (aget k lm))
+      | None => if amem k (kidsM o) then None else aget k lm
+      end.
+Proof. eexists. split; [apply s3_TM|]. intros k. apply s3_get_M. Qed.
+
+Theorem s3_klist_level o tk lk :
+  exists rk, s3 o (TK tk) (Some (TK lk)) = TK rk /\
+    forall k, aget k rk =
+      match aget k tk with
+      | Some tv => Some (match aget k lk with
+                         | Some lv => s3 (aget k (kidsK o)) tv (Some lv)
+                         | None => ghost (aget k (kidsK o)) tv
+                         end)
+      | None => if amem k (kidsK o) then None else aget k lk
+      end.
+Proof. eexists. split; [apply s3_TK|]. intros k. apply s3_get_K. Qed.
+
 (* ------------------------------------------------------------------ *)
 (* every field path the target specifies                                *)
 
